@@ -462,7 +462,7 @@ func checkCleanPerl(p *Prog, ru *Rule, cp *ssa.Function) {
 				ru.Bad(c+":blank-guard", posOf(st), "a line is blanked without having been tested to start with '#'")
 				continue
 			}
-			if nil != (reachQ{From: Loc{guard.Block().Succs[1], -1}, Target: func(i ssa.Instruction) bool { return i == ssa.Instruction(st) }}).run() {
+			if nil != (reachQ{From: edgeLoc(guard.Block(), 1), Target: func(i ssa.Instruction) bool { return i == ssa.Instruction(st) }}).run() {
 				ru.Bad(c+":leading-run-only", posOf(st), "comment lines after the first line of code can be blanked too: text inside here-documents or multi-line strings starting with '#' would be altered")
 			} else {
 				ru.OK(c+":leading-run-only", posOf(st), "blanking stops at the first line which is not a comment")
